@@ -42,8 +42,12 @@ func buildHead(root string, id int, ver int, times, keys bool, nrecs int, rng *r
 		return nil, err
 	}
 	t := int64(1700000000000000)
+	anyOrder := id%2 == 0 // every other head has times in arbitrary order (a single head built in one session: its index is the running maximum)
 	for i := 0; i < nrecs; i++ {
 		t += int64(rng.Intn(3))
+		if anyOrder {
+			t += int64(rng.Intn(200)) - 110
+		}
 		m := klevdb.Message{Key: keyBytes[pick(rng, []string{"n", "a", "b", "g", "h"})], Time: time.UnixMicro(t).UTC()}
 		if rng.Intn(4) > 0 {
 			m.Value = valueBytes(i+1, pick(rng, []int{1, 7, 30, 90}))
@@ -290,7 +294,7 @@ func runFrames(r *SeqRun) {
 	rng := rand.New(rand.NewSource(r.Seed))
 	var all []frameCase
 	id := 0
-	nheads := 1
+	nheads := 2
 	if thorough {
 		nheads = 30
 	}
